@@ -299,6 +299,9 @@ def add_item(unit, file, path, opts=()):
         # skip attributes
         i = 0
         while i < len(sg):
+            if toks[sg[i]].k == "attr":
+                i += 1
+                continue
             a = rsscan._attr_at(toks, sg[i]) if toks[sg[i]].s == "#" else None
             if a is None:
                 break
@@ -456,6 +459,13 @@ def add_fn(unit, fs):
         kw = loops[k - 1]
         bo = loop_body_open(body, kw)
         inv = spec["text"].rstrip("\n")
+        # lines before `invariant` are a ghost prelude emitted just before the loop
+        pre = ""
+        ls = inv.split("\n")
+        for n_, l_ in enumerate(ls):
+            if l_.strip().startswith("invariant"):
+                pre, inv = "\n".join(ls[:n_]), "\n".join(ls[n_:])
+                break
         meta = ("clause", fs.ident, "invariant", "loop%d" % k)
         if spec["forloop"]:
             if body[kw].s != "for":
@@ -477,10 +487,12 @@ def add_fn(unit, fs):
             expr = rsscan.text(body[in_i + 1:bo]).strip()
             itv = "verif_it%d" % k
             bc = rsscan.match_close(body, bo)
-            replaces[kw] = (bo + 1, "{ let mut %s = %s; loop\n%s\n{ let %s = match %s.next() { Some(verif_v) => verif_v, None => break };" % (itv, expr, inv, pat, itv), meta)
+            replaces[kw] = (bo + 1, "{ let mut %s = %s;\n%s\nloop\n%s\n{ let %s = match %s.next() { Some(verif_v) => verif_v, None => break };" % (itv, expr, pre, inv, pat, itv), meta)
             inserts.setdefault(bc + 1, []).append((" }", None))
             unit.log.append("T5 %s: for-loop %d desugared to loop/next (pattern `%s`, iterator `%s`)" % (where, k, pat, expr))
         else:
+            if pre:
+                inserts.setdefault(kw, []).append(("\n" + pre + "\n", ("clause", fs.ident, "ghost", "loop%d-pre" % k)))
             inserts.setdefault(bo, []).append(("\n" + inv + "\n", meta))
         unit.log.append("T4 %s: loop %d received invariant/decreases" % (where, k))
     # --- emit
